@@ -72,41 +72,63 @@ THEOREMS = [
 LEVEL = 'proof'
 TECHNIQUE = ('Lean 4 proof: loop invariant of Part.read_lines_to_boundary (deferred line terminator) by induction '
              'on the LF-split of the content, composed over headers / parts / first-marker search; on top of the '
-             'C05 reader refinement; model tied to the real parser by a differential run through in-process WSGI')
+             'C05 reader refinement; second layer (header map, Content-Disposition incl. quoted ; and filename*, '
+             'charset decoding, Part.processors, storage) with tables regenerated from the live Part; model tied to '
+             'the real parser by a differential run through in-process WSGI plus unit-level runs of each function')
 LEVEL_TEXT = ('Proved in Lean for every valid boundary, every preamble without a marker line, every list of >= 1 parts '
-              'with well-formed header lines, every memory threshold, close delimiter bare or followed by CRLF + any '
+              'with well-formed header lines (continuation lines and repeated headers included: the header list is the '
+              'fold of the code\'s per-line step), every memory threshold, close delimiter bare or followed by CRLF + any '
               'epilogue, any bytes of a following request behind Content-Length, EVERY read-buffer size >= 1 and EVERY '
-              'socket fragmentation (C04_framing_concrete, over the SizedReader model of C05): if no part content has a '
-              'delimiter-like line (a line starting with -- that strip()s to the boundary or end marker) the parser '
-              'returns every part in order with the header list read_headers builds and byte-identical content '
-              '(spilled <=> longer than maxrambytes), stops right behind the close delimiter and takes at most '
-              'Content-Length bytes off the connection. The RFC-strength statement is proved false (F7 witness). Also '
-              'proved: values under one name are the parts with that name in wire order; a body without marker line has '
-              'no parts; name / filename / content type are extracted as declared for form-data; name="n"[; '
-              'filename="f"] with n, f free of quote, backslash, semicolon, comma. Partial: other header shapes '
-              '(escapes, several elements, continuation lines), field-value charset decoding and bodies without a '
-              'declared length (F23, repaired) are covered by the correspondence run only.')
-LEVEL_NOTE = ('Trusted: Lean kernel, the hand models lean/CpModel/Multipart.lean + Reader.lean as validated by the '
-              'differential run (POST through in-process WSGI under fragmentation / buffer sizes / thresholds), '
-              'tempfile, the harness. httputil.HeaderMap / header_elements / parse_header are modelled without proof.')
+              'socket fragmentation (C04_framing_concrete / C04_framing_with_processors, over the SizedReader model of '
+              'C05): if no part content has a delimiter-like line (a line starting with -- that strip()s to the boundary '
+              'or end marker) and every part passes Part.__init__ and selects default_proc, the parser returns every '
+              'part in order with byte-identical content (spilled <=> longer than maxrambytes), stops right behind the '
+              'close delimiter and takes at most Content-Length bytes off the connection. The RFC-strength statement is '
+              'proved false (F7 witness); "every part is read as a part whatever content type it declares" is proved '
+              'false over the live Part.processors table (F28: inherited form / multipart processors). Also proved: '
+              'values under one name are the parts with that name in wire order (empty ones included); a named part '
+              'with a filename is handed over as the Part, without one as its decoded text, an unnamed one stays in '
+              'parts; make_file() is used iff the filename is non-empty or the content outgrew maxrambytes; name / '
+              'filename / content type are extracted as declared for form-data; name="n"[; filename="f"] for ALL n, f '
+              'free of quote, backslash and comma - semicolons, = and blanks inside the quotes included; field values: '
+              'declared charset first, then Part.attempt_charsets, first success wins, 400 iff nothing decodes, and for '
+              'EVERY text its UTF-8 encoding is decoded back to it; escapes, the trailing-backslash quirk of the '
+              'stdlib-style parameter parser, filename* (RFC 5987, errors=replace) and the header map are decided on '
+              'witnesses. Correspondence only: what the inherited processors do with a part (F28), bodies without a '
+              'declared length (F23, repaired), Unicode title-casing of non-ASCII header names.')
+LEVEL_NOTE = ('Trusted: Lean kernel, the hand models lean/CpModel/Multipart.lean, MultipartR/N.lean, MultipartHdr.lean + '
+              'Reader.lean as validated by the differential run (POST through in-process WSGI under fragmentation / '
+              'buffer sizes / thresholds, a per-part view of every Part object, unit-level runs of Content-Disposition '
+              'parsing, field decoding and read_headers), tempfile, the codec registry, the harness.')
 TRUSTED_BASE = [
     'tempfile / file objects: a spooled part is read back through its file object',
-    'header value decoding (ISO-8859-1), field value decoding (us-ascii, utf-8) are done by the harness on the '
-    'model side; httputil.HeaderMap / header_elements are modelled only for the header shapes generated',
+    'codecs: us-ascii, utf-8 (core Lean\'s verified decoder for strict decoding; CPython\'s error ranges transcribed for '
+    'errors=replace), iso-8859-1; which label names which codec is regenerated from codecs.lookup',
+    'httputil.HeaderMap (title-cased keys, ASCII names) / header_elements / parse_header are modelled as transcribed '
+    'and compared on generated Content-Disposition values',
 ]
 ASSUMPTIONS = [
     'theorems: the request declares a Content-Length and the connection delivers that many bytes; bodies without '
     'a declared length (Transfer-Encoding: chunked) are covered by the correspondence run only (finding F23, repaired)',
-    'plain fields carry UTF-8 text, file parts arbitrary bytes; part content types are not '
-    'application/x-www-form-urlencoded or multipart/* (those are re-parsed by nested processors)',
+    'oracle: plain fields carry text in the charset they declare (UTF-8 / ASCII when they declare none), file parts '
+    'arbitrary bytes; header shapes outside that (folded or repeated Content-Disposition, mismatching or unknown '
+    'charset labels, malformed filename*, truncated bodies) are compared with the model only',
+    'a part whose own Content-Type is application/x-www-form-urlencoded or multipart/* is handled by inherited '
+    'processors (finding F28, known): the model stops at such a part',
 ]
 RULE = ('multipart/form-data (15%: multipart/mixed) bodies of 0..6 parts; content from adversarial shapes (CR/LF/CRLF/'
         '"--" runs, near-miss delimiters, all byte values, empty, 1, threshold-1/threshold/threshold+1, 10x threshold, '
-        'lines > 64 KiB, ending in CR / LF / "--"), field | file | unnamed, repeated names, quoted names with ; , = '
-        'and escaped quotes, optional preamble / epilogue / missing final CRLF, bytes of a following request after '
-        'Content-Length; x bufsize 1..65536 x socket fragmentation (whole, 1 byte, random) x maxrambytes '
-        '(0,1,10,100,1000). Non-trivial: at least one part with non-empty content; distinct = distinct '
-        '(boundary, body, bufsize, fragmentation shape, threshold)')
+        'lines of 64 KiB / 128 KiB +-2 bytes in every run, ending in CR / LF / "--"), field | file | unnamed, repeated '
+        'names, quoted names with ; , = and escaped quotes; header-level variation: header-name case, parameter order, '
+        'token values, blanks around ; and =, extra parameters, extra / repeated / continuation header lines before and '
+        'after, declared charsets (utf-8 / iso-8859-1 / us-ascii labels) with matching text, filename* (RFC 5987), '
+        'custom make_file; loose shapes (folded / doubled Content-Disposition, wrong or unknown charsets, malformed '
+        'filename*, names ending in a backslash, truncated bodies, parts declaring form / multipart types); optional '
+        'preamble / epilogue / missing final CRLF, bytes of a following request after Content-Length; x bufsize '
+        '1..70000 x socket fragmentation (whole, 1 byte, random) x maxrambytes (0,1,10,100,1000); plus unit-level cases '
+        '(random Content-Disposition values, contents x charset labels, header blocks). Non-trivial: at least one part '
+        'with non-empty content / a unit case without error; distinct = distinct (boundary, body, bufsize, '
+        'fragmentation shape, threshold) or unit input')
 
 
 # ----------------------------------------------------------------------------------------------
@@ -179,7 +201,12 @@ _LIVE = {}
 
 def live():
     if not _LIVE:
-        _LIVE.update(probe())
+        try:
+            _LIVE.update(probe())
+        except Exception:
+            # tables() has reported the broken introspection; go on with the labels of the unchanged tree
+            _LIVE.update({'procs': [], 'charsets': ['us-ascii', 'utf-8'], 'default_ct': 'text/plain', 'maxram': 1000,
+                          'codecs': [(n, 3) for n in CHARSET_POOL]})
     return _LIVE
 
 
@@ -658,7 +685,8 @@ EXTRA_HEADERS = [['X-Extra: 1'], ['x-multi: a'], ['x-multi: a', 'X-MULTI: b'], [
                  ['x1a-b2c: v'], ['X-Multi: 1', 'x-other: 2', 'X-MULTI: 3'], ['X-Ws :  padded  ']]
 #: (codec, labels the sender may declare it with, sample texts it can encode)
 TEXT_CODECS = [('utf-8', ['utf-8', 'UTF-8', 'utf8', 'utf_8'], ['gr\xfc\xdfe', '\u20ac 5', 'plain', 'a\r\nb', '\U0001f600', '']),
-               ('iso-8859-1', ['iso-8859-1', 'ISO-8859-1', 'latin-1', 'latin1', 'l1'], ['caf\xe9', '\xff\xfe', 'plain', '']),
+               ('iso-8859-1', ['iso-8859-1', 'ISO-8859-1', 'latin-1', 'latin1', 'l1'],
+                ['caf\xe9', '\xff\xfe', 'plain', '', '\xc3\xa9 (valid UTF-8 too)']),
                ('ascii', ['us-ascii', 'US-ASCII', 'ascii'], ['plain text', 'a--b', ''])]
 STAR_NAMES = ['\u20ac rates.txt', 'na\xefve.txt', 'a b;c.txt', 'plain.txt', '100%.txt', "o'neil.txt", '\U0001f600.png']
 
@@ -929,7 +957,13 @@ def parse_unit(case, line):
 
 
 def check_units(ctx, cases, compare=True, stats=True):
-    obs = [run_unit(c) for c in cases]
+    from . import c05
+    obs = [c05.guarded(run_unit, c) for c in cases]
+    for c, o in zip(cases, obs):
+        if o is None:
+            c05.report_hang(ctx, c, 'part machinery (%s)' % c['kind'])
+    cases = [c for c, o in zip(cases, obs) if o is not None]
+    obs = [o for o in obs if o is not None]
     model = ctx.model([line_unit(c) for c in cases]) if compare else None
     for i, (case, o) in enumerate(zip(cases, obs)):
         ctx.case(case, nontrivial='err' not in o, key=json.dumps(case, sort_keys=True))
@@ -998,7 +1032,13 @@ def case_key(case):
 
 
 def check_cases(ctx, cases, compare=True, stats=True):
-    obs_list = [run_real(c) for c in cases]
+    from . import c05
+    obs_list = [c05.guarded(run_real, c) for c in cases]
+    for c, o in zip(cases, obs_list):
+        if o is None:
+            c05.report_hang(ctx, {k: (v if k != 'frag' else v[:8]) for k, v in c.items()}, 'the multipart request')
+    cases = [c for c, o in zip(cases, obs_list) if o is not None]
+    obs_list = [o for o in obs_list if o is not None]
     model = ctx.model([model_line(c) for c in cases]) if compare else None
     for i, (case, obs) in enumerate(zip(cases, obs_list)):
         nontrivial = any(p['content_hex'] for p in case['parts'])
